@@ -1,7 +1,213 @@
-(** C16 - lock-freedom: property theorems (statements only). *)
+(** C16 - lock-free operations finish in bounded solo steps from every reachable state:
+    property theorems (statements only; proofs live in Proof/*Solo.v, the notions in Conc/Solo.v).
+
+    [finishes_within step Step idle t B s]: the run in which only thread t moves, started in s,
+    reaches a state where t is between operations after at most B steps, every one of them enabled.
+    [never_stuck]: no step of that run is disabled (a disabled step models waiting).
+    [blocks]: t finishes within NO bound (the documented exceptions; shows the notion is not vacuous).
+    [reach] quantifies over all programs, all schedules and any number of threads, so the other
+    threads are stopped at arbitrary points inside their operations. *)
 From Coq Require Import NArith List.
+Import ListNotations.
+From XV Require Import Base.Word Conc.Lts Conc.Solo.
+From XV Require Model.ChaseDefs Model.LeftRightDefs Model.VyukovDefs Model.MsqDefs Model.SeqlockDefs.
+From XV Require Proof.VyukovInv Proof.SeqlockInv.
+From XV Require Proof.ChaseSolo Proof.LeftRightSolo Proof.VyukovSolo Proof.MsqSolo Proof.SeqlockSolo.
 Local Open Scope N_scope.
-(** placeholder obligation (solo-termination bounds over the proved models replace it) *)
-Theorem C16_budget_monotone : forall used budget extra : N, used <= budget -> used <= budget + extra.
-Proof. intros. eapply N.le_trans; [eassumption|]. apply N.le_add_r. Qed.
-Print Assumptions C16_budget_monotone.
+
+(** the executable solo run decides [finishes_within] (what a harness computes) *)
+Theorem C16_solo_run_decides : forall (S A E : Type) (step : S -> A -> option (S * list E)) (act : nat -> A)
+  (idle : S -> nat -> bool) t B s,
+  finishes_within step act idle t B s <-> exists s' n, solo_run step act idle t B 0 s = Done s' n.
+Proof. exact finishes_within_run. Qed.
+Print Assumptions C16_solo_run_decides.
+
+(** * chase_work_stealing_deque: try_push / try_pop / try_steal, any policy, state-dependent bound *)
+Theorem C16_chase_all_solo : forall pol s t,
+  reach (ChaseDefs.init pol) (ChaseDefs.step pol) s ->
+  finishes_within (ChaseDefs.step pol) ChaseDefs.Step ChaseSolo.idle t (ChaseSolo.chase_bound pol s t) s /\
+  never_stuck (ChaseDefs.step pol) ChaseDefs.Step ChaseSolo.idle t s.
+Proof. intros pol s t H. split; [exact (ChaseSolo.chase_solo pol s t H)|exact (ChaseSolo.chase_never_stuck pol s t H)]. Qed.
+Print Assumptions C16_chase_all_solo.
+
+(** Fixed policy: try_push 5, try_steal 5, try_pop 8 steps (START step included) *)
+Theorem C16_chase_fixed_solo : forall c s t,
+  reach (ChaseDefs.init (ChaseDefs.Fixed c)) (ChaseDefs.step (ChaseDefs.Fixed c)) s ->
+  finishes_within (ChaseDefs.step (ChaseDefs.Fixed c)) ChaseDefs.Step ChaseSolo.idle t
+    (ChaseSolo.fixed_op_bound (ChaseDefs.th s t)) s.
+Proof. exact ChaseSolo.chase_fixed_solo. Qed.
+Print Assumptions C16_chase_fixed_solo.
+
+Theorem C16_chase_fixed_solo_8 : forall c s t,
+  reach (ChaseDefs.init (ChaseDefs.Fixed c)) (ChaseDefs.step (ChaseDefs.Fixed c)) s ->
+  finishes_within (ChaseDefs.step (ChaseDefs.Fixed c)) ChaseDefs.Step ChaseSolo.idle t 8 s.
+Proof. exact ChaseSolo.chase_fixed_solo_8. Qed.
+Print Assumptions C16_chase_fixed_solo_8.
+
+(** Growing policy: try_push 12 + 2 * capacity (grow copies at most capacity + 1 entries, one load
+    and one store each; an unfinished grow: 2 * remaining entries + 4), try_pop 9, try_steal 6 *)
+Theorem C16_chase_growing_solo : forall mn mx s t,
+  reach (ChaseDefs.init (ChaseDefs.Growing mn mx)) (ChaseDefs.step (ChaseDefs.Growing mn mx)) s ->
+  finishes_within (ChaseDefs.step (ChaseDefs.Growing mn mx)) ChaseDefs.Step ChaseSolo.idle t
+    (ChaseSolo.growing_op_bound (N.to_nat (ChaseDefs.capacity (ChaseDefs.sh s))) (ChaseDefs.th s t)) s.
+Proof. exact ChaseSolo.chase_growing_solo. Qed.
+Print Assumptions C16_chase_growing_solo.
+
+(** ... and in terms of the configuration only *)
+Theorem C16_chase_growing_solo_max : forall a b, a <= b -> b <= 62 -> forall s t,
+  reach (ChaseDefs.init (ChaseDefs.Growing (2 ^ a) (2 ^ b))) (ChaseDefs.step (ChaseDefs.Growing (2 ^ a) (2 ^ b))) s ->
+  finishes_within (ChaseDefs.step (ChaseDefs.Growing (2 ^ a) (2 ^ b))) ChaseDefs.Step ChaseSolo.idle t
+    (12 + 2 * N.to_nat (2 ^ b)) s.
+Proof. exact ChaseSolo.chase_growing_solo_max. Qed.
+Print Assumptions C16_chase_growing_solo_max.
+
+(** an operation started by an idle thread (the owner for push/pop) *)
+Theorem C16_chase_start_solo : forall pol s t o s' es,
+  reach (ChaseDefs.init pol) (ChaseDefs.step pol) s ->
+  ChaseDefs.step pol s (ChaseDefs.Start t o) = Some (s', es) ->
+  finishes_within (ChaseDefs.step pol) ChaseDefs.Step ChaseSolo.idle t
+    (ChaseSolo.pc_mu (ChaseDefs.is_growing pol) (N.to_nat (ChaseDefs.capacity (ChaseDefs.sh s))) (ChaseDefs.Begin o)) s'.
+Proof. exact ChaseSolo.chase_solo_start. Qed.
+Print Assumptions C16_chase_start_solo.
+
+(** * left_right: read is wait-free, exactly 7 steps from its start (exactly [lr_read_bound] inside) *)
+Theorem C16_leftright_read_solo : forall s t,
+  reach LeftRightDefs.init LeftRightDefs.step s -> LeftRightSolo.read_pc (LeftRightDefs.th s t) = true ->
+  finishes_exactly LeftRightDefs.step LeftRightDefs.Step LeftRightSolo.idle t (LeftRightSolo.lr_read_bound s t) s /\
+  finishes_within LeftRightDefs.step LeftRightDefs.Step LeftRightSolo.idle t 7 s /\
+  never_stuck LeftRightDefs.step LeftRightDefs.Step LeftRightSolo.idle t s.
+Proof.
+  intros s t H1 H2. split; [exact (LeftRightSolo.lr_read_solo_exact s t H1 H2)|].
+  split; [exact (LeftRightSolo.lr_read_solo_7 s t H1 H2)|exact (LeftRightSolo.lr_read_never_stuck s t H1 H2)].
+Qed.
+Print Assumptions C16_leftright_read_solo.
+
+Theorem C16_leftright_read_start_solo : forall s t s' es,
+  reach LeftRightDefs.init LeftRightDefs.step s ->
+  LeftRightDefs.step s (LeftRightDefs.Start t LeftRightDefs.ORead) = Some (s', es) ->
+  finishes_exactly LeftRightDefs.step LeftRightDefs.Step LeftRightSolo.idle t 7 s'.
+Proof. exact LeftRightSolo.lr_read_solo_start. Qed.
+Print Assumptions C16_leftright_read_start_solo.
+
+(** update is blocking: it waits for the mutex / for a reader that is stopped inside its read *)
+Theorem C16_leftright_update_blocking_mutex :
+  reach LeftRightDefs.init LeftRightDefs.step LeftRightSolo.lr_block_state_a /\
+  LeftRightDefs.th LeftRightSolo.lr_block_state_a 2%nat = LeftRightDefs.Begin (LeftRightDefs.OUpdate 7) /\
+  blocks LeftRightDefs.step LeftRightDefs.Step LeftRightSolo.idle 2%nat LeftRightSolo.lr_block_state_a.
+Proof. exact LeftRightSolo.lr_update_blocking_mutex. Qed.
+Print Assumptions C16_leftright_update_blocking_mutex.
+
+Theorem C16_leftright_update_blocking_spin :
+  reach LeftRightDefs.init LeftRightDefs.step LeftRightSolo.lr_block_state_b /\
+  LeftRightDefs.th LeftRightSolo.lr_block_state_b 1%nat = LeftRightDefs.Begin (LeftRightDefs.OUpdate 5) /\
+  (forall t, t <> 1%nat -> t <> 2%nat -> LeftRightDefs.th LeftRightSolo.lr_block_state_b t = LeftRightDefs.Idle) /\
+  LeftRightDefs.mutex (LeftRightDefs.sh LeftRightSolo.lr_block_state_b) = None /\
+  blocks LeftRightDefs.step LeftRightDefs.Step LeftRightSolo.idle 1%nat LeftRightSolo.lr_block_state_b.
+Proof. exact LeftRightSolo.lr_update_blocking_spin. Qed.
+Print Assumptions C16_leftright_update_blocking_spin.
+
+(** * vyukov_bounded_queue: the weak try_push / try_pop finish within 5 steps *)
+Theorem C16_vyukov_weak_solo : forall cap k, 1 <= k -> k <= 30 -> cap = 2 ^ k -> forall s t,
+  reach VyukovDefs.init (VyukovDefs.step cap) s ->
+  VyukovInv.nn (VyukovDefs.g_in s) + 1 < 2 ^ 62 ->
+  VyukovSolo.weak_pc (VyukovDefs.th s t) = true ->
+  finishes_within (VyukovDefs.step cap) VyukovDefs.Step VyukovSolo.idle t (VyukovSolo.vyu_weak_bound s t) s /\
+  (VyukovSolo.vyu_weak_bound s t <= 5)%nat /\
+  never_stuck (VyukovDefs.step cap) VyukovDefs.Step VyukovSolo.idle t s.
+Proof.
+  intros cap k H1 H2 H3 s t Hr Hb Hw.
+  split; [exact (VyukovSolo.vyu_weak_solo cap k H1 H2 H3 s t Hr Hb Hw)|].
+  split; [exact (VyukovSolo.vyu_weak_bound_le5 s t)|exact (VyukovSolo.vyu_weak_never_stuck cap k H1 H2 H3 s t Hr Hb Hw)].
+Qed.
+Print Assumptions C16_vyukov_weak_solo.
+
+Theorem C16_vyukov_weak_start_solo : forall cap k, 1 <= k -> k <= 30 -> cap = 2 ^ k -> forall s t o s' es,
+  reach VyukovDefs.init (VyukovDefs.step cap) s ->
+  VyukovInv.nn (VyukovDefs.g_in s) + 1 < 2 ^ 62 ->
+  (match o with VyukovDefs.OPush w _ => w | VyukovDefs.OPop w => w end) = true ->
+  VyukovDefs.step cap s (VyukovDefs.Start t o) = Some (s', es) ->
+  finishes_within (VyukovDefs.step cap) VyukovDefs.Step VyukovSolo.idle t 5 s'.
+Proof. exact VyukovSolo.vyu_weak_solo_start. Qed.
+Print Assumptions C16_vyukov_weak_start_solo.
+
+(** the strong operations block: a solo thread spins on a cell held by a stopped thread *)
+Theorem C16_vyukov_strong_push_blocking :
+  reach VyukovDefs.init (VyukovDefs.step 2) VyukovSolo.vyu_block_state_push /\
+  VyukovDefs.th VyukovSolo.vyu_block_state_push 1%nat = VyukovDefs.Begin (VyukovDefs.OPush false 12) /\
+  blocks (VyukovDefs.step 2) VyukovDefs.Step VyukovSolo.idle 1%nat VyukovSolo.vyu_block_state_push.
+Proof. exact VyukovSolo.vyu_strong_push_blocking. Qed.
+Print Assumptions C16_vyukov_strong_push_blocking.
+
+Theorem C16_vyukov_strong_pop_blocking :
+  reach VyukovDefs.init (VyukovDefs.step 2) VyukovSolo.vyu_block_state_pop /\
+  VyukovDefs.th VyukovSolo.vyu_block_state_pop 2%nat = VyukovDefs.Begin (VyukovDefs.OPop false) /\
+  blocks (VyukovDefs.step 2) VyukovDefs.Step VyukovSolo.idle 2%nat VyukovSolo.vyu_block_state_pop.
+Proof. exact VyukovSolo.vyu_strong_pop_blocking. Qed.
+Print Assumptions C16_vyukov_strong_pop_blocking.
+
+(** * michael_scott_queue: push within 9 (8 from its start), pop within 12 (11 from its start) *)
+Theorem C16_msq_push_pop_solo : forall s t,
+  reach MsqDefs.init MsqDefs.step s ->
+  finishes_within MsqDefs.step MsqDefs.Step MsqSolo.idle t (MsqSolo.msq_bound s t) s /\
+  (MsqSolo.msq_bound s t <= MsqSolo.msq_op_bound (MsqDefs.th s t))%nat /\
+  finishes_within MsqDefs.step MsqDefs.Step MsqSolo.idle t 12 s /\
+  never_stuck MsqDefs.step MsqDefs.Step MsqSolo.idle t s.
+Proof.
+  intros s t H. split; [exact (MsqSolo.msq_solo s t H)|]. split; [exact (MsqSolo.msq_bound_le s t)|].
+  split; [exact (MsqSolo.msq_solo_12 s t H)|exact (MsqSolo.msq_never_stuck s t H)].
+Qed.
+Print Assumptions C16_msq_push_pop_solo.
+
+Theorem C16_msq_start_solo : forall s t o s' es,
+  reach MsqDefs.init MsqDefs.step s -> MsqDefs.step s (MsqDefs.Start t o) = Some (s', es) ->
+  finishes_within MsqDefs.step MsqDefs.Step MsqSolo.idle t
+    (match o with MsqDefs.OPush _ => 8 | MsqDefs.OPop => 11 end) s'.
+Proof. exact MsqSolo.msq_solo_start. Qed.
+Print Assumptions C16_msq_start_solo.
+
+(** * seqlock: load with more than one slot within 2 * words + 4 (words + 4 from its start) *)
+Theorem C16_seqlock_load_solo : forall slots words func v0,
+  2 <= slots -> slots < 2 ^ 30 -> (1 <= words)%nat -> forall s t,
+  reach (SeqlockDefs.init v0) (SeqlockDefs.step slots words func) s -> SeqlockInv.Bnd s ->
+  SeqlockSolo.load_pc (SeqlockDefs.th s t) = true ->
+  finishes_within (SeqlockDefs.step slots words func) SeqlockDefs.Step SeqlockSolo.idle t
+    (SeqlockSolo.seqlock_load_bound slots words s t) s /\
+  (SeqlockSolo.seqlock_load_bound slots words s t <= 2 * words + 4)%nat /\
+  never_stuck (SeqlockDefs.step slots words func) SeqlockDefs.Step SeqlockSolo.idle t s.
+Proof.
+  intros slots words func v0 H1 H2 H3 s t Hr HB Hw.
+  split; [exact (SeqlockSolo.seqlock_load_solo slots words func v0 H1 H2 H3 s t Hr HB Hw)|].
+  split; [exact (SeqlockSolo.seqlock_load_bound_le slots words s t)|].
+  exact (SeqlockSolo.seqlock_load_never_stuck slots words func v0 H1 H2 H3 s t Hr HB Hw).
+Qed.
+Print Assumptions C16_seqlock_load_solo.
+
+Theorem C16_seqlock_load_start_solo : forall slots words func v0,
+  2 <= slots -> slots < 2 ^ 30 -> (1 <= words)%nat -> forall s t s' es,
+  reach (SeqlockDefs.init v0) (SeqlockDefs.step slots words func) s -> SeqlockInv.Bnd s ->
+  SeqlockDefs.step slots words func s (SeqlockDefs.Start t SeqlockDefs.OLoad) = Some (s', es) ->
+  finishes_within (SeqlockDefs.step slots words func) SeqlockDefs.Step SeqlockSolo.idle t (words + 4) s'.
+Proof. exact SeqlockSolo.seqlock_load_solo_start. Qed.
+Print Assumptions C16_seqlock_load_start_solo.
+
+(** one slot: load blocks behind a stopped writer; store / update block for any number of slots *)
+Theorem C16_seqlock_load_one_slot_blocking :
+  reach (SeqlockDefs.init [0]) (SeqlockDefs.step 1 1 SeqlockSolo.idf) SeqlockSolo.sl_block_state_load /\
+  SeqlockDefs.th SeqlockSolo.sl_block_state_load 2%nat = SeqlockDefs.Begin SeqlockDefs.OLoad /\
+  blocks (SeqlockDefs.step 1 1 SeqlockSolo.idf) SeqlockDefs.Step SeqlockSolo.idle 2%nat SeqlockSolo.sl_block_state_load.
+Proof. exact SeqlockSolo.seqlock_load_one_slot_blocking. Qed.
+Print Assumptions C16_seqlock_load_one_slot_blocking.
+
+Theorem C16_seqlock_store_blocking :
+  reach (SeqlockDefs.init [0]) (SeqlockDefs.step 2 1 SeqlockSolo.idf) SeqlockSolo.sl_block_state_store /\
+  SeqlockDefs.th SeqlockSolo.sl_block_state_store 2%nat = SeqlockDefs.Begin (SeqlockDefs.OStore 2 [9]) /\
+  blocks (SeqlockDefs.step 2 1 SeqlockSolo.idf) SeqlockDefs.Step SeqlockSolo.idle 2%nat SeqlockSolo.sl_block_state_store.
+Proof. exact SeqlockSolo.seqlock_store_blocking. Qed.
+Print Assumptions C16_seqlock_store_blocking.
+
+Theorem C16_seqlock_update_blocking :
+  reach (SeqlockDefs.init [0]) (SeqlockDefs.step 2 1 SeqlockSolo.idf) SeqlockSolo.sl_block_state_update /\
+  SeqlockDefs.th SeqlockSolo.sl_block_state_update 2%nat = SeqlockDefs.Begin (SeqlockDefs.OUpdate 3) /\
+  blocks (SeqlockDefs.step 2 1 SeqlockSolo.idf) SeqlockDefs.Step SeqlockSolo.idle 2%nat SeqlockSolo.sl_block_state_update.
+Proof. exact SeqlockSolo.seqlock_update_blocking. Qed.
+Print Assumptions C16_seqlock_update_blocking.
